@@ -44,7 +44,8 @@ PROPS = {
         units=[
         unit("c04", "route", ROUTE_COMMON + ["route/c04_test.go"], "^TestVerifC04"),
         route_sched("c04-sched", "^TestVerifC04Sched", shards={"quick": 1, "thorough": 8}),
-    ], layers={"quick": ["c04-add", "c04-weightcmd", "c04-sched"], "thorough": ["c04-add", "c04-weightcmd", "c04-sched"]}),
+        unit("c04-listeners", ".", MAIN_COMMON + ["main/c19_test.go", "main/c16_test.go", "main/c04_listener_test.go"], "^TestVerifC04Listeners", engines=["vhook"], rewrite=[{"files": ["transport/transport.go"], "opts": ["-sel", "net.Dialer=vhook.Dialer"]}]),
+    ], layers={"quick": ["c04-add", "c04-weightcmd", "c04-sched", "c04-listeners"], "thorough": ["c04-add", "c04-weightcmd", "c04-sched", "c04-listeners"]}),
     "C05": dict(level="model_checking", engine="xstate",
         technique="explicit-state BFS over route-command scripts with a reference interpreter; each transition rebuilds the real table with NewTable and compares",
         level_text="All reachable reference states of a 19-command alphabet (add/del/weight in every documented form, hosts in mixed case, tags, opts, weights) are explored breadth-first (quick: depth 5 with state de-duplication; thorough: until the frontier empties); every transition is executed on the real parser + table and compared field by field with an independent interpreter; every state round-trips through Parse(Table.String()).",
